@@ -427,7 +427,8 @@ def checkHist (inp obs : KV) : Option String × List (String × String) :=
   if obs.has "hang" then
     -- the process stopped making progress in real time: goroutines blocked on a mutex / WaitGroup for good
     (some ("fields=hang " ++ obs.get "hang"),
-      [("C16", "does-not-terminate:" ++ obs.get "hang"), ("C20", "deadlock:" ++ obs.get "hang")] ++
+      [("C16", "does-not-terminate:" ++ obs.get "hang"), ("C20", "deadlock:" ++ obs.get "hang"),
+       ("C08", "starved:the-processing-loop-is-blocked-for-ever:" ++ obs.get "hang")] ++
       (if ((obs.get "hang").splitOn "Pause").length > 1 || ((obs.get "hang").splitOn "resume").length > 1
         then [("C13", "pause-or-resume-blocks-for-ever:" ++ obs.get "hang")] else [])) else
   let sc := parseHScn inp
